@@ -100,7 +100,7 @@ func (r *runner) generate() {
 	// ---------------- macro arguments ----------------
 	txv := [][2]string{{"x", hx("Vx")}, {"a", hx("")}, {"t", hx("b a")}, {"a.x", hx("\xff\x00")}, {"tx", hx("%{tx.x}")}}
 	mtexts := enumerate("%{}.txa", 0, cfg.Pick(3, 5))
-	for i := 0; i < cfg.Pick(300, 6000); i++ {
+	for i := 0; i < cfg.Pick(200, 6000); i++ {
 		mtexts = append(mtexts, randFrom(rng, "%{}.txa%{}.tx", 4+rng.Intn(5)))
 	}
 	mtexts = append(mtexts, "%{tx.x}", "pre%{tx.x}post", "%{tx.missing}", "%{TX.X}", "%{Tx.A.X}", "%{tx.a%{tx.x}",
@@ -131,7 +131,7 @@ func (r *runner) generate() {
 	for _, op := range numOps {
 		for _, a := range numStrings {
 			for _, v := range numStrings {
-				if cfg.Thorough() || rng.Intn(8) == 0 {
+				if cfg.Thorough() || rng.Intn(12) == 0 {
 					r.runMop(op, a, nil, v)
 				}
 			}
@@ -222,7 +222,7 @@ func (r *runner) genPm(rng *rand.Rand) {
 		}
 	}
 	mkPhrase := func(al string, n int) string { return randFrom(rng, al, n) }
-	for i := 0; i < cfg.Pick(1200, 60000); i++ {
+	for i := 0; i < cfg.Pick(900, 60000); i++ {
 		al := pick(rng, []string{"abc", "abcABC", "ab", "abcxyzQ-_/.", "ab\xff\x80", "aAbB\xc3\xa9\x89"})
 		n := 1 + rng.Intn(5)
 		ps := make([]string, n)
@@ -354,7 +354,7 @@ func (r *runner) genVbr(rng *rand.Rand) {
 	}
 	for _, a := range args {
 		for b := 0; b < 256; b++ {
-			if cfg.Thorough() || b < 2 || b > 253 || rng.Intn(16) == 0 || (b >= 9 && b <= 14) || (b >= 30 && b <= 34) || (b >= 63 && b <= 67) || (b >= 89 && b <= 91) || (b >= 96 && b <= 101) || (b >= 125 && b <= 128) {
+			if cfg.Thorough() || b < 2 || b > 253 || rng.Intn(40) == 0 || (b >= 9 && b <= 14) || (b >= 31 && b <= 33) || (b >= 64 && b <= 67) || (b >= 89 && b <= 91) || (b >= 96 && b <= 101) || (b >= 125 && b <= 128) {
 				r.runSimple("vbr", "validateByteRange", a, string([]byte{byte(b)}))
 			}
 		}
@@ -395,7 +395,7 @@ func (r *runner) genUtf8(rng *rand.Rand) {
 		for _, b1 := range bd {
 			r.runSimple("vutf8", "validateUtf8Encoding", "", string([]byte{b0, b1}))
 			for _, b2 := range bd {
-				if cfg.Thorough() || ((b0 >= 0xe0 && b0 <= 0xf4) && rng.Intn(6) == 0) || rng.Intn(60) == 0 {
+				if cfg.Thorough() || ((b0 >= 0xe0 && b0 <= 0xf4) && rng.Intn(10) == 0) || rng.Intn(100) == 0 {
 					r.runSimple("vutf8", "validateUtf8Encoding", "", string([]byte{b0, b1, b2}))
 				}
 				if b0 >= 0xf0 && (cfg.Thorough() || rng.Intn(20) == 0) {
